@@ -739,6 +739,16 @@ class Admission:
         self.ontime_expect = {}
         self.loaded_start = False
         self.begun_all = {}
+        # repeated names (several runs of one pipeline; same attributes,
+        # different planned starts): bookkeeping is per begin call; the
+        # per-name clauses (status sequence, machines held, on time) are
+        # judged only for names that occur once
+        names = [o["name"] for o in self.cfg["obs"]]
+        self.dups = {n for n in names if names.count(n) > 1}
+        self.min_est = {}
+        for o in self.cfg["obs"]:
+            e = o["start"] / self.info["f"]
+            self.min_est[o["name"]] = min(e, self.min_est.get(o["name"], e))
 
     def _scan_calls(self, run):
         """process begin_obs calls made since the last scan, at the state in
@@ -765,9 +775,10 @@ class Admission:
         arrays_used = c["use_before"]
         ing_pending = sum(self.info["obs"][n]["ingest"] for _, n in same)
         self.begun_now.append((t, name))
-        if t + EPS < oi["est"]:
+        est = self.min_est[name] if name in self.dups else oi["est"]
+        if t + EPS < est:
             run.violate("C08.not-before-planned-start", "started-early",
-                        {"obs": name, "t": t, "est": oi["est"]})
+                        {"obs": name, "t": t, "est": est})
         if arrays_used + oi["demand"] > self.cfg["arrays"]:
             run.violate("C08.arrays-free", "arrays-overcommitted",
                         {"obs": name, "in_use": arrays_used,
@@ -788,11 +799,11 @@ class Admission:
         # data still owed to observations that have already begun (earlier,
         # or earlier in this very instant) is not room
         owed = 0
-        for n2, t2 in self.begun_all.items():
+        for (n2, _), t2 in self.begun_all.items():
             o2 = self.info["obs"][n2]
             done = o2["rate"] * min(max(t - t2, 0), o2["dur"])
             owed += o2["size"] - done
-        self.begun_all[name] = t
+        self.begun_all[(name, len(self.begun_all))] = t
         if snap["hot_free"] - oi["size"] < -EPS:
             run.violate("C08.hot-room", "admitted-without-hot-room",
                         {"obs": name, "hot_free": snap["hot_free"],
@@ -821,7 +832,8 @@ class Admission:
         # (v) on time when completely idle
         due = [n for n, st, ast, _ in snap["obs"]
                if st == "WAITING" and self.info["obs"][n]["est"] <= t]
-        if len(due) == 1 and self.info["obs"][due[0]]["est"] == t:
+        if len(due) == 1 and self.info["obs"][due[0]]["est"] == t \
+                and due[0] not in self.dups:
             idle = (snap["tel_use"] == 0 and not snap["ingest"]
                     and not snap["occupied"] and not snap["idle"]
                     and sorted(snap["available"]) == sorted(self.info["mids"])
@@ -873,6 +885,8 @@ class Admission:
                             {"obs": name, "est": t,
                              "started": begun.get(name)})
         for name, seq in self.status_seq.items():
+            if name in self.dups:
+                continue
             ok = seq == ["WAITING", "RUNNING", "FINISHED"][:len(seq)]
             if not ok or len(begun.get(name, [])) > 1:
                 run.violate("C08.status-once", "status-sequence",
@@ -884,6 +898,8 @@ class Admission:
             if a["kind"] == "alloc" and a["ingest"]:
                 by_obs.setdefault(a["observation"], []).append(a)
         for name, ts in begun.items():
+            if name in self.dups:
+                continue
             oi = info["obs"][name]
             recs = by_obs.get(name, [])
             ast = ts[0]
